@@ -212,6 +212,14 @@ def gen_case(rng, K, regime=None):
         vals = [-abs(v) if rng.random() < 0.5 else -lam * rng.choice([1.0, 0.5, 1e-3, 1e-6, p[order[0]]]) for v in vals]
     for i, v in zip(idx, vals):
         qv[i] = max(-1.0, min(1.0, v))
+    if regime == "manyq" and K >= 9:
+        # a well-searched node: dozens of visited children, every one with its own mean value, the
+        # best of them anywhere in move-id order (often late)
+        nd = min(K, rng.choice([9, 33, 34, 40, 64, 101]))
+        where = rng.sample(range(K), nd)
+        for i in where:
+            qv[i] = max(-1.0, min(1.0, rng.uniform(-1.0, 0.6)))
+        qv[max(where) if rng.random() < 0.7 else rng.choice(where)] = rng.choice([0.9, 1.0, 0.75])
     q = torch.tensor(qv)  # default dtype float32, as policy_probs builds it
     label = "%s|nvis%d|%s" % (shape.split(":")[0], len(set(idx)), regime or "plain")
     return {"label": label, "lam": lam, "pi": tensor_hex(pi), "q": tensor_hex(q), "K": K, "C": C, "N": N}
@@ -254,7 +262,7 @@ def cases(ctx, scale):
         for j in range(max(1, int(n * scale))):
             yield from gen_evolution(rng, K, rng.choice([3, 5, 8]))
     plan = {1: 30, 2: 120, 3: 120, 9: 160, 30: 220, 135: 120, 496: 40, 1575: 10, 4572: 4}
-    regimes = [None, None, None, "collapse", "collapse", "nearzero", "bigK-smallN", "ties"]
+    regimes = [None, None, None, "collapse", "collapse", "nearzero", "bigK-smallN", "ties", "manyq"]
     for K, n in plan.items():
         for j in range(max(1, int(n * scale))):
             yield gen_case(rng, K, regimes[j % len(regimes)])
@@ -475,6 +483,11 @@ def case_of(r):
 # ------------------------------------------------------------------ protocol entry points
 
 _RUN = {"cases": []}
+
+
+import sys as _sys
+
+_sys.set_int_max_str_digits(0)  # exact rationals over dozens of distinct q values have long numerators
 
 
 def _account(ctx, c):
